@@ -144,6 +144,11 @@ theorem overviewSiteG_ok (o : FOps) (c : Option UInt64) (r : Option Fl.Bits) (w 
       simp only [Option.isSome_some, Bool.not_true, Bool.or_self, Bool.false_eq_true, if_false, deref, Res.bind]
       rw [extentsRateG_eq]
       obtain ⟨v, hv⟩ := extentsRate_toI64 x
+      have hu : GuardedUtils.extentsSiteG Guards.source.utilOvwZero Fl.toI64 n.toNat (extentsRate x) = .ok () :=
+        TrackUtils.extentsSiteG_ok _ (fun n qn r h => (C15Guards.util_ovw_zero_iff n qn r).mpr (Or.inr h))
+          Fl.toI64 n.toNat (extentsRate x) v hv (toI64_inI64 _ v hv)
+      rw [hu]
+      simp only [Res.bind]
       obtain ⟨size, spe, hg, _⟩ :=
         TrackUtils.gen_ovw_some o.cxx n.toNat (extentsRate x) v hv (toI64_inI64 _ v hv)
       rw [hg]
@@ -170,6 +175,11 @@ theorem hiresSiteG_ok (o : FOps) (c : Option UInt64) (r : Option Fl.Bits) : hire
       · rfl
       · rw [extentsRateG_eq]
         obtain ⟨v, hv⟩ := extentsRate_toI64 x
+        have hu : GuardedUtils.extentsSiteG Guards.source.utilHiresZero Fl.toI64 n.toNat (extentsRate x) = .ok () :=
+          TrackUtils.extentsSiteG_ok _ (fun n qn r h => (C15Guards.util_hires_zero_iff n qn r).mpr (Or.inr h))
+            Fl.toI64 n.toNat (extentsRate x) v hv (toI64_inI64 _ v hv)
+        rw [hu]
+        simp only [Res.bind]
         obtain ⟨e, he⟩ := TrackUtils.gen_hires_some o.cxx n.toNat (extentsRate x) v hv (toI64_inI64 _ v hv)
         rw [he]
 
